@@ -207,6 +207,14 @@ def read_outs(cfg, ch, model_s, model_p, reads, ctx):
             raise Violation(f"get_sample:{tag}", f"burn={burn}, thin={thin}, n={n}: shape {gs.shape}, expected ({k}, {d}) = rows burn::thin")
         if k == 0 and gs.shape[0] != 0:
             raise Violation(f"get_sample:{tag}", f"burn={burn}, thin={thin}, n={n}: shape {gs.shape}, expected 0 rows")
+        if k == 0:
+            # nothing retained: the highest-density read-out still answers (with no rows), as a two-dimensional array
+            with warnings.catch_warnings(), np.errstate(all="ignore"):
+                warnings.simplefilter("ignore")
+                iv_s, iv_p = ch.get_interval(interval=rd["interval"], burn=burn, thin=thin)
+            iv_s, iv_p = np.asarray(iv_s), np.asarray(iv_p)
+            if iv_s.ndim != 2 or iv_s.shape[0] != 0 or iv_p.shape != (0,):
+                raise Violation(f"get_interval-shape:{cls}:empty", f"burn={burn}, thin={thin}, n={n}: get_interval returned shapes {iv_s.shape}, {iv_p.shape} for an empty selection")
         if gx.shape != (k,) or not np.array_equal(gx, exp_s[:, idx]):
             raise Violation(f"get_parameter:{tag}", f"burn={burn}, thin={thin}, n={n}, index={idx}: shape {gx.shape}, expected ({k},)")
         # marginal estimates are built from exactly those values
